@@ -212,3 +212,44 @@ Proof.
   - unfold path_type. rewrite Hb. cbn [bind]. now subst tend.
   - unfold path_gindex. rewrite Hb. cbn [bind]. rewrite Hgs. reflexivity.
 Qed.
+
+(* ---- generalized index <-> path ---- *)
+Lemma pos_bits_app p : forall acc, pos_bits p acc = pos_bits p [] ++ acc.
+Proof.
+  induction p as [p IH|p IH|]; intros acc; cbn [pos_bits]; [| |reflexivity].
+  - rewrite (IH (true :: acc)), (IH [true]). now rewrite <- app_assoc.
+  - rewrite (IH (false :: acc)), (IH [false]). now rewrite <- app_assoc.
+Qed.
+
+(* appending one bit to the path = 2g + bit *)
+Lemma path_double g p (b : bool) : path_of_gindex g = Some p ->
+  path_of_gindex (2 * g + (if b then 1 else 0)) = Some (p ++ [b]).
+Proof.
+  destruct g as [|q]; cbn [path_of_gindex]; [discriminate|]. intros E. inversion E; subst. clear E.
+  destruct b; cbn [N.mul N.add path_of_gindex Pos.mul Pos.add pos_bits]; now rewrite pos_bits_app.
+Qed.
+
+Lemma be_bits_snoc d : forall i, be_bits (S d) i = be_bits d (i / 2) ++ [N.odd i].
+Proof.
+  induction d as [|d IH]; intros i.
+  - cbn [be_bits app]. now rewrite N.bit0_odd.
+  - cbn [be_bits] in *. rewrite IH. cbn [app]. f_equal.
+    rewrite <- N.div2_div, N.div2_spec, N.shiftr_spec by lia. f_equal. lia.
+Qed.
+
+(* the path of to_gindex i d is the d-bit big-endian expansion of i *)
+Theorem path_of_to_gindex : forall d i, i < 2 ^ N.of_nat d ->
+  path_of_gindex (2 ^ N.of_nat d + i) = Some (be_bits d i).
+Proof.
+  induction d as [|d IH]; intros i Hi.
+  - cbn in Hi. assert (i = 0) as -> by lia. reflexivity.
+  - rewrite be_bits_snoc. rewrite Nat2N.inj_succ, N.pow_succ_r' in *.
+    assert (i / 2 < 2 ^ N.of_nat d) as Hh by lia.
+    pose proof (path_double _ _ (N.odd i) (IH (i / 2) Hh)) as Hp.
+    replace (2 * 2 ^ N.of_nat d + i) with (2 * (2 ^ N.of_nat d + i / 2) + (if N.odd i then 1 else 0)); [exact Hp|].
+    pose proof (N.div_mod i 2 ltac:(lia)) as Hdm. rewrite <- N.bit0_mod in Hdm. rewrite N.bit0_odd in Hdm.
+    destruct (N.odd i); cbn [N.b2n] in Hdm; lia.
+Qed.
+
+Lemma be_bits_length d i : length (be_bits d i) = d.
+Proof. induction d as [|d IH]; cbn; [reflexivity|now rewrite IH]. Qed.
